@@ -71,7 +71,7 @@ PLAN = {
         "level": "exploration",
         "rule": RULE_TRACE + RULE_LATTICE + RULE_SWEEP,
         "models": [MC("MC_P3_div.cfg", W_DIV, "thorough")],
-        "traces": [T("arith_div", (350, 30000), (12, 14)), T("lattice_div", (8192, 112), (6, 14)), T("exponent_sweep", (8, 14), (8, 14))],
+        "traces": [T("arith_div", (350, 30000), (12, 14)), T("lattice_div", (8192, 448), (6, 14)), T("exponent_sweep", (8, 14), (8, 14))],
     },
     "C19": {
         "level": "exploration",
